@@ -73,3 +73,75 @@ Proof.
   { unfold import_string. rewrite T. destruct (nonempty g); [apply add_graph_refused; assumption|reflexivity]. }
   destruct ep; try discriminate; exact I.
 Qed.
+
+(* ---------- loading a text into a store that already holds something under the target id ---------- *)
+(* whatever the store holds under gid (an older or a modified version of the graph, or nothing): after a re-stamping
+   import of a text denoting g under gid, gid holds exactly (a copy of) g *)
+Theorem load_restamp_any_store ep s t gid g :
+  is_direct ep = false -> store_wf s = true -> text_graph t = Some g ->
+  graph_shape g = true -> graph_ids_ok g = true -> g_nodes g <> [] ->
+  exists s', import_via ep s t gid = (s', ROk gid)
+             /\ extract s' gid = Some (copy_of s gid g)
+             /\ content (copy_of s gid g) = content (restamp gid g).
+Proof.
+  intros D W T SH IDS NE. unfold text_graph in T. destruct (graph_shape_parts g SH) as [ND CL].
+  destruct (add_graph_spec s gid g (store_wf_bounded s W) ND CL IDS NE) as (s' & AG & EX).
+  exists s'. split; [|split; [exact EX|apply content_copy; assumption]].
+  assert (I : import_string s t gid = (s', ROk gid)).
+  { unfold import_string. rewrite T, (nonempty_b _ NE). exact AG. }
+  destruct ep; try discriminate; exact I.
+Qed.
+
+Theorem load_direct_any_store ep s t gid g :
+  is_direct ep = true -> store_wf s = true -> text_graph t = Some g ->
+  graph_shape g = true -> g_nodes g <> [] -> (forall n, In n (g_nodes g) -> has_gid gid n = true) ->
+  forall gid', exists s', import_via ep s t gid' = (s', ROk gid)
+             /\ extract s' gid = Some (copy_direct s g)
+             /\ content (copy_direct s g) = content g.
+Proof.
+  intros D W T SH NE HG gid'. unfold text_graph in T. destruct (graph_shape_parts g SH) as [ND CL].
+  destruct (add_graph_direct_spec s gid g (store_wf_bounded s W) ND CL HG NE) as (s' & AG & EX).
+  exists s'. split; [|split; [exact EX|apply content_relabelled; assumption]].
+  assert (I : import_string_direct s t = (s', ROk gid)).
+  { unfold import_string_direct. rewrite (get_graph_id_spec t _ _ T NE HG), T, (nonempty_b _ NE). exact AG. }
+  destruct ep; try discriminate; exact I.
+Qed.
+
+Lemma pset_same k v ps : pget k ps = Some v -> pset k v ps = ps.
+Proof.
+  induction ps as [|[k' w] r IH]; [discriminate|]. simpl. destruct (N.eqb_spec k' k) as [->|NE].
+  - intro H. inversion H. reflexivity.
+  - intro H. rewrite IH by exact H. reflexivity.
+Qed.
+
+Lemma map_id_on_local {A} (f : A -> A) l : (forall x, In x l -> f x = x) -> map f l = l.
+Proof.
+  induction l as [|x l IH]; intro H; [reflexivity|]. simpl. rewrite (H x (or_introl eq_refl)), IH; [reflexivity|].
+  intros y Hy. apply H. right. exact Hy.
+Qed.
+
+Lemma stamp_own gid g : (forall n, In n (g_nodes g) -> has_gid gid n = true) -> stamp gid g = g.
+Proof.
+  intro HG. unfold stamp. destruct g as [ns es]. simpl in *. f_equal.
+  apply map_id_on_local. intros [k ps] Hn. simpl. f_equal. apply pset_same. apply (has_gid_inv gid (k, ps)), HG, Hn.
+Qed.
+
+(* RELOAD UNDER THE SAME ID: a stored graph is serialized (a snapshot); then - whatever happened to the stored graph
+   in between, [s2] is any store - the snapshot is loaded back under the graph's own id through any entry point:
+   afterwards the id holds exactly the snapshot's content *)
+Theorem reload_same_id f ep s s2 gid g :
+  store_wf s = true -> extract s gid = Some g -> fmt_ok f g = true -> graph_ids_ok g = true -> store_wf s2 = true ->
+  exists t, serialize_graph s gid f = Some (Some t)
+            /\ forall gid', exists s' g', import_via ep s2 t (if is_direct ep then gid' else gid) = (s', ROk gid)
+                                         /\ extract s' gid = Some g' /\ content g' = content g.
+Proof.
+  intros W E OK IDS W2. destruct (serialize_graph_denotes f s gid g E OK) as (t & SE & TG).
+  exists t. split; [exact SE|]. intro gid'.
+  destruct (extract_facts _ _ _ E) as [NE HG]. pose proof (fmt_ok_shape f g OK) as SH.
+  destruct (is_direct ep) eqn:D.
+  - destruct (load_direct_any_store ep s2 t gid g D W2 TG SH NE HG gid') as (s' & A & B & C).
+    exists s', (copy_direct s2 g). repeat split; assumption.
+  - destruct (load_restamp_any_store ep s2 t gid g D W2 TG SH IDS NE) as (s' & A & B & C).
+    exists s', (copy_of s2 gid g). split; [exact A|]. split; [exact B|].
+    rewrite C. unfold restamp. rewrite (stamp_own gid g HG). reflexivity.
+Qed.
